@@ -181,7 +181,7 @@ def gen_watchers(rng, n, profile):
     ws = []
     for i in range(n):
         w = {"name": "w%d" % (i + 1), "np": rng.choice([0, 1, 1, 2, 2, 3]),
-             "G": rng.choice([0.0, 0.1, 0.2, 0.3, 0.5]), "W": rng.choice([0.0, 0.0, 0.1, 0.2]),
+             "G": rng.choice(profile.get("Gs", [0.0, 0.1, 0.2, 0.3, 0.5])), "W": rng.choice([0.0, 0.0, 0.1, 0.2]),
              "singleton": False, "respawn": True, "priority": rng.choice([0, 0, 1, 2])}
         if profile.get("singleton") and rng.random() < 0.3:
             w["singleton"] = True
@@ -272,6 +272,14 @@ def gen_request(rng, w, p, names):
     elif cmd == "set_np":
         return {"op": "req", "cmd": "set", "props": {"name": name, "waiting": waiting,
                                                      "options": {"numprocesses": rng.choice([0, 1, 2, 3, -1])}}}
+    elif cmd == "set_opt":
+        import shlex
+        key = rng.choice(["cmd", "env", "working_dir", "max_age", "graceful_timeout", "warmup_delay", "stop_children",
+                          "send_hup", "max_retry"])
+        val = {"cmd": "simworker " + shlex.quote(w), "env": {"A": str(rng.randint(1, 3))}, "working_dir": "/tmp",
+               "max_age": 0, "graceful_timeout": rng.choice([0.1, 0.2, 0.3]), "warmup_delay": rng.choice([0, 0.1]),
+               "stop_children": rng.random() < 0.5, "send_hup": False, "max_retry": rng.choice([1, 3, 5])}[key]
+        return {"op": "req", "cmd": "set", "props": {"name": name, "waiting": waiting, "options": {key: val}}}
     elif cmd == "reload":
         props = {"name": name, "waiting": waiting, "graceful": rng.random() < 0.75,
                  "sequential": rng.random() < 0.4}
@@ -286,8 +294,8 @@ def gen_request(rng, w, p, names):
             props.pop("waiting")
     elif cmd == "kill":
         props = {"name": name, "waiting": waiting}
-        if rng.random() < 0.5:
-            props["graceful_timeout"] = rng.choice([0, 0.1, 0.2, 0.4])
+        if rng.random() < max(0.5, p.get("killover", 0.0)):
+            props["graceful_timeout"] = rng.choice([0, 0, 0.1, 0.2, 0.4] if p.get("killover") else [0, 0.1, 0.2, 0.4])
         if rng.random() < 0.4:
             props["signum"] = rng.choice([SIGINT, "quit", "SIGUSR1", SIGTERM])
         if rng.random() < 0.5:
